@@ -190,3 +190,17 @@ func (sig EcdsaSignature) Pack() []byte {
 	sig.S.FillBytes(ret[nbytes:])
 	return ret
 }
+
+// Pack an ECDSA signature as two numbers of exactly nbytes each, the
+// fixed-width form of IEEE 1363 that XML signatures and JWS require. nbytes is
+// the size of the curve order in bytes.
+func (sig EcdsaSignature) PackFixed(nbytes int) ([]byte, error) {
+	if nbytes <= 0 || nbytes > 1<<16 || sig.R == nil || sig.S == nil || sig.R.Sign() < 0 || sig.S.Sign() < 0 ||
+		sig.R.BitLen() > 8*nbytes || sig.S.BitLen() > 8*nbytes {
+		return nil, errors.New("ecdsa signature does not fit the curve")
+	}
+	ret := make([]byte, 2*nbytes)
+	sig.R.FillBytes(ret[0:nbytes])
+	sig.S.FillBytes(ret[nbytes:])
+	return ret, nil
+}
